@@ -192,7 +192,9 @@ func c09IterCurrent(c *cx, f *eng.Fn, via string) {
 }
 
 // c09Index: rule C09.3 (a)-(c).
-func c09Index(c *cx, f *eng.Fn, via string) {
+func c09Index(c *cx, f *eng.Fn, via string) { c09IndexID(c, "C09.3", f, via) }
+
+func c09IndexID(c *cx, rid string, f *eng.Fn, via string) {
 	g := f.Graph()
 	info := f.Info()
 	mentions := func(pt eng.Point, needle string) bool {
@@ -236,7 +238,7 @@ func c09Index(c *cx, f *eng.Fn, via string) {
 					}
 				}
 			}
-			c.r.Check("C09.3", f, "constant index "+f.Norm(e, &pt), "E-idx(b): a constant index into a slice is dominated by a fact about its length", e.Pos(), okg, "index out of range if the slice is shorter (no dominating length test); reached via "+via)
+			c.r.Check(rid, f, "constant index "+f.Norm(e, &pt), "E-idx(b): a constant index into a slice is dominated by a fact about its length", e.Pos(), okg, "index out of range if the slice is shorter (no dominating length test); reached via "+via)
 		case *ast.CallExpr:
 			id := f.CalleeID(e)
 			// (c) make with a subtractive size
@@ -248,7 +250,7 @@ func c09Index(c *cx, f *eng.Fn, via string) {
 					}
 					pt, _ := g.Where(e)
 					xs := f.Norm(be.X, &pt)
-					c.r.Check("C09.3", f, "make size "+f.Norm(a, &pt), "E-idx(c): a subtractive make size is dominated by a bound on its minuend", e.Pos(), mentions(pt, xs), "negative size panics (makeslice) when "+xs+" is smaller than the subtrahend; reached via "+via)
+					c.r.Check(rid, f, "make size "+f.Norm(a, &pt), "E-idx(c): a subtractive make size is dominated by a bound on its minuend", e.Pos(), mentions(pt, xs), "negative size panics (makeslice) when "+xs+" is smaller than the subtrahend; reached via "+via)
 				}
 			}
 			// (a) sentinel results
@@ -302,7 +304,7 @@ func c09Index(c *cx, f *eng.Fn, via string) {
 					}
 					return true
 				})
-				c.r.Check("C09.3", f, "sentinel result of "+id, "E-idx(a): the -1 result of Index* never reaches a slice bound or index", e.Pos(), bad == "", bad)
+				c.r.Check(rid, f, "sentinel result of "+id, "E-idx(a): the -1 result of Index* never reaches a slice bound or index", e.Pos(), bad == "", bad)
 			}
 		}
 		return true
